@@ -164,6 +164,10 @@ func decimalToFloat(d *pb.Decimal64) float32 {
 // handles only the primitive types and ScalarArrays and returns false for all
 // other types.
 func Equal(a, b *pb.TypedValue) bool {
+	if b == nil {
+		// A missing value equals nothing; not every case below is nil-safe.
+		return false
+	}
 	switch av := a.GetValue().(type) {
 	case *pb.TypedValue_StringVal:
 		bv, ok := b.GetValue().(*pb.TypedValue_StringVal)
